@@ -1,8 +1,10 @@
 #!/bin/bash
 # usage: seedtest.sh <patch.diff> <property> [check args...]   : apply a seeded change to /repo, run the check, undo
 patch="$1"; prop="$2"; shift 2
-cd /repo && { git apply "$patch" 2>/dev/null || git apply -3 "$patch" 2>/dev/null || patch -p1 -F3 -s < "$patch"; } || { echo "APPLY FAILED"; git -C /repo checkout -- .; exit 9; }; git -C /repo reset -q
+clean() { git -C /repo checkout HEAD -- . 2>/dev/null; git -C /repo reset -q; git -C /repo clean -fdq -- middleware; }
+cd /repo && { git apply "$patch" 2>/dev/null || git apply -3 "$patch" 2>/dev/null; } || { echo "APPLY FAILED (use a patch_head.diff rebased onto the fix commits)"; clean; exit 9; }
+git -C /repo reset -q
 cd /verif && ./check "$prop" --no-evidence "$@" 2>&1 | tail -8
 rc=${PIPESTATUS[0]}
-git -C /repo checkout -- . 
+clean
 echo "seedtest rc=$rc"
